@@ -78,8 +78,44 @@ func vhC13Dec(out []byte, f float64) []byte {
 	return out
 }
 
+func vhC13Hex(out []byte, n uint64, width int) []byte {
+	var tmp [16]byte
+	k := 0
+	for n > 0 || k == 0 {
+		tmp[k] = "0123456789ABCDEF"[n&15]
+		n >>= 4
+		k++
+	}
+	for j := k; j < width; j++ {
+		out = append(out, '0')
+	}
+	for k > 0 {
+		k--
+		out = append(out, tmp[k])
+	}
+	return out
+}
+
 func vhC13Arg(out []byte, a interface{}, width int) []byte {
+	return vhC13ArgV(out, a, width, 'v')
+}
+
+func vhC13ArgV(out []byte, a interface{}, width int, verb byte) []byte {
+	if verb == 'X' {
+		switch v := a.(type) {
+		case uint16:
+			return vhC13Hex(out, uint64(v), width)
+		case uint32:
+			return vhC13Hex(out, uint64(v), width)
+		case int:
+			return vhC13Hex(out, uint64(v), width)
+		}
+	}
 	switch v := a.(type) {
+	case uint16:
+		return vhC13Itoa(out, int(v), width)
+	case uint32:
+		return vhC13Itoa(out, int(v), width)
 	case int:
 		return vhC13Itoa(out, v, width)
 	case pdfRef:
@@ -117,9 +153,13 @@ func vhC13Fprintf(w io.Writer, format string, a ...interface{}) (int, error) {
 			width = width*10 + int(format[i]-'0')
 			i++
 		}
-		// verb: v, d or s
+		// verb: v, d, s or X
+		verb := byte('v')
+		if i < len(format) {
+			verb = format[i]
+		}
 		if ai < len(a) {
-			out = vhC13Arg(out, a[ai], width)
+			out = vhC13ArgV(out, a[ai], width, verb)
 			ai++
 		} else {
 			out = append(out, "%!MISSING"...)
